@@ -544,16 +544,16 @@ theorem componentSubPoint_ptW_val (a b : Pt) (c : Composer) (hwf : WF c)
 
 /-- field-level selection between `P` (`b = 1`) and the identity (`b = 0`):
     `(b·x, 1 − b + b·y)` -/
-def selF (b : F) (P : PtF) : PtF := (b * P.1, 1 - b + b * P.2)
+def selIdF (b : F) (P : PtF) : PtF := (b * P.1, 1 - b + b * P.2)
 
-@[simp] theorem selF_zero (P : PtF) : selF 0 P = idF := by simp [selF, idF]
-@[simp] theorem selF_one (P : PtF) : selF 1 P = P := by simp [selF]
+@[simp] theorem selIdF_zero (P : PtF) : selIdF 0 P = idF := by simp [selIdF, idF]
+@[simp] theorem selIdF_one (P : PtF) : selIdF 1 P = P := by simp [selIdF]
 
-theorem selF_on_curve {b : F} {P : PtF} (hb : b = 0 ∨ b = 1) (hP : OnCurveP P) :
-    OnCurveP (selF b P) := by
+theorem selIdF_on_curve {b : F} {P : PtF} (hb : b = 0 ∨ b = 1) (hP : OnCurveP P) :
+    OnCurveP (selIdF b P) := by
   rcases hb with rfl | rfl
-  · rw [selF_zero]; exact id_on_curveP
-  · rw [selF_one]; exact hP
+  · rw [selIdF_zero]; exact id_on_curveP
+  · rw [selIdF_one]; exact hP
 
 /-- state after the `select_zero` gate -/
 def selIdMid (c : Composer) (bit : Nat) (a : Pt) : Composer :=
@@ -610,7 +610,7 @@ theorem selectIdentityGates_rows_iff (bit : Nat) (a : Pt) (c : Composer) (h : WF
     (w : Nat → Nat) :
     ((selectIdentityGates bit a).run c).2.rowsHoldW w c.gates.size
         ((selectIdentityGates bit a).run c).2.gates.size ↔
-      ptW w (c.wit.size, c.wit.size + 1) = selF (toF (w bit)) (ptW w a) := by
+      ptW w (c.wit.size, c.wit.size + 1) = selIdF (toF (w bit)) (ptW w a) := by
   rw [selectIdentityGates_snd,
     (selIdMid_appends c bit a).rows_split (componentSelectOne_appends bit a.2 _) w]
   have r1 : (selIdMid c bit a).rowsHoldW w c.gates.size (selIdMid c bit a).gates.size ↔ _ :=
@@ -618,7 +618,7 @@ theorem selectIdentityGates_rows_iff (bit : Nat) (a : Pt) (c : Composer) (h : WF
   have r2 := componentSelectOne_rows_iff bit a.2 (selIdMid c bit a) (selIdMid_wf c bit a h) w
   rw [selIdMid_wit_size] at r2
   rw [r1, r2]
-  unfold ptW selF
+  unfold ptW selIdF
   simp only [Prod.mk.injEq]
 
 /-- **soundness of `select_identity_gates`** for a boolean-valued bit wire: the output is the
@@ -626,12 +626,12 @@ theorem selectIdentityGates_rows_iff (bit : Nat) (a : Pt) (c : Composer) (h : WF
 theorem selectIdentityGates_sound (bit : Nat) (a : Pt) (c : Composer) (h : WF c) (w : Nat → Nat)
     (hr : ((selectIdentityGates bit a).run c).2.rowsHoldW w c.gates.size
         ((selectIdentityGates bit a).run c).2.gates.size) :
-    ptW w ((selectIdentityGates bit a).run c).1 = selF (toF (w bit)) (ptW w a) ∧
+    ptW w ((selectIdentityGates bit a).run c).1 = selIdF (toF (w bit)) (ptW w a) ∧
     (toF (w bit) = 0 → ptW w ((selectIdentityGates bit a).run c).1 = idF) ∧
     (toF (w bit) = 1 → ptW w ((selectIdentityGates bit a).run c).1 = ptW w a) := by
   have e := (selectIdentityGates_rows_iff bit a c h w).mp hr
   rw [selectIdentityGates_fst]
-  exact ⟨e, fun hb => by rw [e, hb, selF_zero], fun hb => by rw [e, hb, selF_one]⟩
+  exact ⟨e, fun hb => by rw [e, hb, selIdF_zero], fun hb => by rw [e, hb, selIdF_one]⟩
 
 theorem selectIdentityGates_honest_ext (bit : Nat) (a : Pt) (c : Composer) (hwf : WF c)
     (hb : bit < c.wit.size) (ha : PtAlloc c a)
@@ -657,7 +657,7 @@ theorem selectIdentityGates_honest (bit : Nat) (a : Pt) (c : Composer) (hwf : WF
 theorem selectIdentityGates_ptW_val (bit : Nat) (a : Pt) (c : Composer) (hwf : WF c)
     (hb : bit < c.wit.size) (ha : PtAlloc c a) :
     ptW ((selectIdentityGates bit a).run c).2.val ((selectIdentityGates bit a).run c).1 =
-      selF (toF (c.val bit)) (ptW c.val a) := by
+      selIdF (toF (c.val bit)) (ptW c.val a) := by
   have hs := (selectIdentityGates_sound bit a c hwf _
     (selectIdentityGates_honest bit a c hwf hb ha)).1
   have hx := selectIdentityGates_extends bit a c
@@ -714,7 +714,7 @@ theorem componentSelectIdentity_rows_iff (bit : Nat) (a : Pt) (c : Composer) (h 
     ((componentSelectIdentity bit a).run c).2.rowsHoldW w c.gates.size
         ((componentSelectIdentity bit a).run c).2.gates.size ↔
       (toF (w bit) = 0 ∨ toF (w bit) = 1) ∧
-      ptW w (c.wit.size, c.wit.size + 1) = selF (toF (w bit)) (ptW w a) := by
+      ptW w (c.wit.size, c.wit.size + 1) = selIdF (toF (w bit)) (ptW w a) := by
   rw [componentSelectIdentity_run,
     (selIdB_appends c bit).rows_split (selectIdentityGates_appends bit a _) w]
   have r1 : (selIdB c bit).rowsHoldW w c.gates.size (selIdB c bit).gates.size ↔ _ :=
@@ -734,8 +734,8 @@ theorem componentSelectIdentity_sound (bit : Nat) (a : Pt) (c : Composer) (h : W
   obtain ⟨hb, e⟩ := (componentSelectIdentity_rows_iff bit a c h w).mp hr
   rw [componentSelectIdentity_fst]
   rcases hb with hb | hb
-  · exact Or.inl ⟨hb, by rw [e, hb, selF_zero]⟩
-  · exact Or.inr ⟨hb, by rw [e, hb, selF_one]⟩
+  · exact Or.inl ⟨hb, by rw [e, hb, selIdF_zero]⟩
+  · exact Or.inr ⟨hb, by rw [e, hb, selIdF_one]⟩
 
 /-- **`component_select_identity` is unsatisfiable for a non-boolean bit** -/
 theorem componentSelectIdentity_unsat (bit : Nat) (a : Pt) (c : Composer) (h : WF c)
@@ -785,7 +785,7 @@ theorem componentSelectIdentity_honest_iff (bit : Nat) (a : Pt) (c : Composer) (
 theorem componentSelectIdentity_ptW_val (bit : Nat) (a : Pt) (c : Composer) (hwf : WF c)
     (hb : bit < c.wit.size) (ha : PtAlloc c a) :
     ptW ((componentSelectIdentity bit a).run c).2.val ((componentSelectIdentity bit a).run c).1 =
-      selF (toF (c.val bit)) (ptW c.val a) := by
+      selIdF (toF (c.val bit)) (ptW c.val a) := by
   rw [componentSelectIdentity_run]
   have hx : Extends c (selIdB c bit) := (selIdB_appends c bit).ext
   rw [selectIdentityGates_ptW_val bit a _ (selIdB_wf c bit hwf)
@@ -953,10 +953,10 @@ theorem InSubgroup.smul {P : PtF} (hP : InSubgroup P) (n : ℕ) : InSubgroup (sm
     rw [← smulF_mul _ _ hP.1, Nat.mul_comm, smulF_mul _ _ hP.1, hP.2, smulF_id]⟩
 
 theorem InSubgroup.sel {P : PtF} (hP : InSubgroup P) {b : F} (hb : b = 0 ∨ b = 1) :
-    InSubgroup (Composer.selF b P) := by
+    InSubgroup (Composer.selIdF b P) := by
   rcases hb with rfl | rfl
-  · rw [Composer.selF_zero]; exact inSubgroup_id
-  · rw [Composer.selF_one]; exact hP
+  · rw [Composer.selIdF_zero]; exact inSubgroup_id
+  · rw [Composer.selIdF_one]; exact hP
 
 /-- **subgroup_closed**: `[r_J]P = O ∧ [r_J]Q = O → [r_J](P+Q) = O`, and likewise for the
     negation, the difference, every scalar multiple and the identity. -/
